@@ -25,6 +25,9 @@ def gen(rng, quick):
             mins = rng.choice([1, 1, 2, 5]); maxs = mins + rng.choice([0, 3, 10, 30])
             thr = rng.choice([0.05, 0.02, 0.1])
             jobs.append("CRUN %s %s %s %d %g %d %d %g %d %d %g" % (p, sysn, env, q, step, mins, maxs, thr, rng.randint(1, 10 ** 6), 200000, 1.0 if quick else 2.0))
+        # an unreachable goal: every planner has to report an approximate solution (assembled from its record of the closest state)
+        for k in range(2 if quick else 12):
+            jobs.append("CRUN %s %s blocked %d %g %d %d %g %d %d %g" % (p, ["car", "point"][k % 2], k % 4, [0.05, 0.02][k % 2], 1, [8, 30][k % 2], 0.05, 7919 * (k + 1) + len(p), 200000, 1.0 if quick else 2.0))
         # the same with a directed control sampler that tries k controls per extension and keeps the one ending closest
         for k in range(2 if quick else 24):
             sysn = ["point", "car"][k % 2] + ":k%d" % rng.choice([2, 4, 8])
